@@ -8,6 +8,7 @@
 //verif:include jws_sign_env.go
 //verif:harness H_C16_jws_sign_attrs
 //verif:harness H_C16_jws_sign_signer
+//verif:harness H_C16_jws_sign_nilcert
 //verif:harness H_C08_jws_sign_fold
 package jws
 
@@ -142,6 +143,26 @@ func H_C16_jws_sign_attrs()  { focusS = 1; signJWS() }
 // the same with a first attribute whose key differs from a specified header only in letter case
 func H_C08_jws_sign_fold() { focusS = 1; foldModelS = true; signJWS() }
 func H_C16_jws_sign_signer() { focusS = 2; signJWS() }
+
+// an external signer whose chain has a missing (nil) element: "returns a chain that fails code-signing validation" —
+// an error and no bytes, never a panic (the complete oracle of signAndCheckJWS looks into the certificates and is not
+// used here)
+func H_C16_jws_sign_nilcert() {
+	focusS, nilCertS = 2, true
+	req := buildRequestS()
+	e := NewEnvelope().(*base.Envelope)
+	var out []byte
+	var err error
+	_, panicked := rt.Panics(func() { out, err = e.Sign(req) })
+	rt.Assert(!panicked, "C16.jws.nilcert.nopanic")
+	if panicked {
+		return
+	}
+	rt.Assert((out == nil) != (err == nil), "C16.jws.nilcert.bytes.xor.error")
+	if nilCertReturnedS {
+		rt.Assert(err != nil, "C16.jws.nilcert.rejected")
+	}
+}
 
 func jwsRowOfKeySpec() int {
 	kind := rt.IteInt(int(theKeySpecS.Type) == 1, rt.KindRSA, rt.IteInt(int(theKeySpecS.Type) == 2, rt.KindEC, rt.KindOther))
